@@ -737,7 +737,37 @@ def n1(chk, tab):
     chk.floor("N1", 2)
 
 
+RECORD_ACCUMULATORS = [
+    # (file, function, accumulator, test text of the arm that starts a record, why)
+    (TYPES["oem"], "_loads_kvn", "cov", "line.startswith('EPOCH')", "one dict per covariance: optional COV_REF_FRAME must not leak from the previous one"),
+    (COMMONS, "kvn2dict", "man", "key == 'MAN_EPOCH_IGNITION'", "one dict per maneuver: the optional COMMENT must not leak"),
+]
+
+
+def b10(chk, tab):
+    """Per-record accumulators of the line-oriented readers are created afresh where the record starts."""
+    for rel, fn, var, start, why in RECORD_ACCUMULATORS:
+        f = chk.repo.func(rel, fn)
+        arms = [n for n in ast.walk(f.node) if isinstance(n, ast.If) and unparse(n.test) == start]
+        ok = False
+        what = f"record-start arm `{start}` not found"
+        if len(arms) == 1:
+            creates = [s for s in arms[0].body if isinstance(s, ast.Assign) and unparse(s.targets[0]) == var and isinstance(s.value, (ast.Dict, ast.Call))]
+            others = [n for n in ast.walk(f.node) if isinstance(n, ast.Assign) and unparse(n.targets[0]) == var and n not in creates]
+            ok = len(creates) == 1 and not others
+            what = f"`{var}` is created once per record ({why})" if ok else \
+                f"`{var}` is created {len(creates)} time(s) in the record-start arm and {len(others)} time(s) elsewhere: keys of one record (optional ones included) survive into the next"
+        chk.inst("B10", f"{f.ref}::{var}", ok, what, loc(f, arms[0]) if arms else loc(f, f.node))
+    # TDM: one MeasureSet per DATA_START; TLE grouping is decided under C12
+    f = chk.repo.func(TYPES["tdm"], "_loads_kvn")
+    arms = [n for n in ast.walk(f.node) if isinstance(n, ast.If) and unparse(n.test) == "line.startswith('DATA_START')"]
+    ok = len(arms) == 1 and any(unparse(s).replace(" ", "") == "data=MeasureSet()" for s in arms[0].body)
+    chk.inst("B10", f"{f.ref}::data", ok, "one MeasureSet per data block" if ok else "changed", loc(f, f.node))
+    chk.floor("B10", 3)
+
+
 def run(chk):
+    chk.rule("B10", "line-oriented readers create their per-record accumulators where the record starts")
     chk.rule("B1", "both encodings write the same keys (up to containers / informational), same CENTER_NAME rule; dispatch and detection")
     chk.rule("B2", "required by a reader ⊆ written; state-bearing written ⊆ read")
     chk.rule("B3", "units written = default units assumed; conversions inverse; all in units_dict")
@@ -758,5 +788,6 @@ def run(chk):
     chk.guard(b8, chk, tab)
     chk.guard(b9, chk, tab)
     chk.guard(n1, chk, tab)
+    chk.guard(b10, chk, tab)
     chk.assume("informational keys (header, markers, redundant osculating elements, START/STOP_TIME, GM, MAN_DELTA_MASS) need not round-trip; table in c13.py with reasons")
     chk.assume("rule C for dates under a TIME_SYSTEM is decided under C04")
